@@ -304,7 +304,7 @@ Proof.
   destruct (c_control c1) as [[id fs]|] eqn:Hctl.
   2:{ inversion H; subst. apply PcNoFrame; [exact Hfp|discriminate|discriminate]. }
   destruct (poll_next (fs_with_q fs (rxq w1 id))) as [pr fs'] eqn:Hpn.
-  set (c2 := set_control c1 (Some (id, fs_with_q fs' []))) in *.
+  set (c2 := set_ghost (set_control c1 (Some (id, fs_with_q fs' []))) (c_ctl0 c1) (c_trace c1 ++ [CallAuto])) in *.
   set (w2 := set_rxq w1 id (st_q fs')) in *.
   assert (Hfp2 : footprint pc_cause_code c c2 None).
   { destruct Hfp as (H1 & H2 & H3 & H4). unfold footprint. repeat split; auto. }
@@ -840,10 +840,25 @@ Proof.
   - exact H1.
 Qed.
 
+Lemma ghost_arrive_parts e c :
+  ctl_part (ghost_arrive e c) = ctl_part c /\ err_part (ghost_arrive e c) = err_part c.
+Proof.
+  unfold ghost_arrive. destruct e; try (split; reflexivity).
+  destruct (c_control c) as [[cid fs]|]; [|split; reflexivity].
+  destruct (id =? cid); split; reflexivity.
+Qed.
+
 Lemma step_inv d e : drv_inv d -> drv_inv (step d e).
 Proof.
   intros Hinv. destruct e; cbn [step]; try (apply drive_inv; exact Hinv);
-    unfold drv_inv, conn_of in *; destruct (d_s d) as [[c w] wr]; exact Hinv.
+    unfold drv_inv, conn_of in *; destruct (d_s d) as [[c w] wr]; cbn [d_res d_role d_s d_ph];
+    match goal with |- context [ghost_arrive ?e c] =>
+      destruct (ghost_arrive_parts e c) as [Hp He];
+      assert (Hce : c_err (ghost_arrive e c) = c_err c) by (unfold err_part in He; congruence)
+    end;
+    destruct Hinv as (H1 & H2 & H3 & H4); rewrite Hce;
+    (split; [intros Hx; eapply ctl_inv_ext; [exact Hp|exact He|apply H1; exact Hx]|]);
+    (split; [exact H2|split; [exact H3|exact H4]]).
 Qed.
 
 Lemma new_drv_inv r g wt cr dflt : drv_inv (new_drv r g wt cr dflt).
